@@ -122,6 +122,16 @@ CHECKS = {
         note="Trusted: ideal 4-byte-tag AEAD (2^-32 forgery chance outside), stub accessory database, z3; sampled paths replayed with "
              "the real pure-Python ChaCha20-Poly1305 partial-tag code.",
         design="DESIGN.md section 5 C18"),
+    "C19": dict(
+        text="PARTIAL (parsing / routing half): HomeKitAdvertisement and HomeKitEncryptedNotification parsing for every Apple "
+             "manufacturer-data byte string of length 0..24 (symbolic content, concrete id bytes) against the field-extraction spec; "
+             "BleController._device_detected with the real pairing-side handlers for every such advertisement x {no pairing, pairing "
+             "with cached state, pairing without cached state}: never raises, completes exactly the waiters registered for the "
+             "advertised id, ignores malformed data; encrypted notifications incl. authentic ones with unknown id / short plaintext. "
+             "The waiter half (async_find wake-ups under all schedules; mDNS) is NOT decided: it needs a running event loop.",
+        note="Trusted: ideal partial-tag AEAD, IntFlag constructors as identity, recorders for BleDiscovery/cache/task creation, z3. "
+             "BleController.async_find never registering its future is an observation no check here decides.",
+        design="DESIGN.md section 5 C19"),
 }
 
 NOT_APPLICABLE = {
